@@ -20,7 +20,8 @@ for d in sorted(glob.glob(os.path.join(ROOT, "seeded", "*"))):
     meta.setdefault("needs_to_manifest", "see notes.md")
     meta["files"] = sorted(os.listdir(d))
     lp = "/dev/shm/seedverify-%s.log" % seed
-    if os.path.exists(lp):
+    if os.path.exists(lp) and (not os.path.exists(mp) or os.path.getmtime(lp) > os.path.getmtime(mp)):
+        # only a verification log newer than the recorded result replaces it (and its repo_head)
         res = dict(re.findall(r"RESULT (\w+)=(\S+)", open(lp).read()))
         prevv = meta.get("verified_in_scratch_worktree", {})
         if res and "suite" not in res and prevv.get("existing_suite_with_patch") in ("pass",):
